@@ -267,9 +267,11 @@ fn value_of(r: u32, k: u32, n: u32, z: u32, uc: bool, uf: bool, ud: bool, us: u8
     if ud {
         v += data_value(k) + val_s(k, z + n);
     }
+    // a registered closure the script uses is called by `main`, by an ordinary function, and by the initialiser
+    // of a script constant generated after that function (which also calls the function): four calls in all
     for j in 0..2 {
         if us & (1 << j) != 0 {
-            v += val_g(r, j);
+            v += 4 * val_g(r, j);
         }
     }
     if us & 4 != 0 {
@@ -279,7 +281,7 @@ fn value_of(r: u32, k: u32, n: u32, z: u32, uc: bool, uf: bool, ud: bool, us: u8
         v += val_r(r) + val_d(r);
     }
     if uf {
-        v += val_f(r);
+        v += 4 * val_f(r);
     }
     v += many_value(k, m);
     if uk {
@@ -743,6 +745,16 @@ fn script(r: u32, k: u32, n: u32, z: u32, uc: bool, uf: bool, ud: bool, us: u8, 
         s.push_str(&format!("const SL: List[u32] = {};\n", roto_list(&list_const(k))));
         s.push_str(&format!("const SS: String = \"{}\" + \"{}\";\n", lit_const_a(k), lit_const_b()));
     }
+    // registered closures are also called from an ordinary function and, generated after it, from the initialiser
+    // of a script constant (code that runs once, during compilation)
+    if uf {
+        s.push_str("fn viaf() -> u32 { getclos() }\nconst CF: u32 = viaf() + getclos();\n");
+    }
+    for j in 0..2 {
+        if us & (1 << j) != 0 {
+            s.push_str(&format!("fn vias{j}() -> u32 {{ sib{j}() }}\nconst CS{j}: u32 = vias{j}() + sib{j}();\n"));
+        }
+    }
     s.push_str(&format!("fn main() -> u32 {{\n    {}", 1000 * k));
     for c in 0..z {
         s.push_str(&format!(" + zval(ZC{c})"));
@@ -762,11 +774,14 @@ fn script(r: u32, k: u32, n: u32, z: u32, uc: bool, uf: bool, ud: bool, us: u8, 
         s.push_str(" + val(REGC) + val(REGD) + zrval(REGZ)");
     }
     if uf {
-        s.push_str(" + getclos()");
+        s.push_str(" + getclos() + viaf() + CF");
     }
     for (j, name) in ["sib0", "sib1", "sibz"].iter().enumerate() {
         if us & (1 << j) != 0 {
             s.push_str(&format!(" + {name}()"));
+            if j < 2 {
+                s.push_str(&format!(" + vias{j}() + CS{j}"));
+            }
         }
     }
     for i in 0..m {
@@ -1622,6 +1637,32 @@ fn main() {
             // crash budget: a tree on which (almost) every history dies must not
             // cost one process start per history
             let crashes = std::cell::Cell::new(0u32);
+            // the table model of Model/LifetimeAddr.lean against the real `std::collections::HashMap`: at which
+            // insertions do the entries move (the capacity changes and the address of the first entry with it)?
+            {
+                let mut real: Vec<String> = vec![];
+                let mut map: std::collections::HashMap<u64, [u8; 40]> = std::collections::HashMap::new();
+                let (mut cap, mut addr) = (map.capacity(), 0usize);
+                for i in 1..=240u64 {
+                    map.insert(i, [i as u8; 40]);
+                    let a = map.get(&1).map(|v| v.as_ptr() as usize).unwrap_or(0);
+                    if map.capacity() != cap || a != addr {
+                        real.push(i.to_string());
+                    }
+                    cap = map.capacity();
+                    addr = a;
+                }
+                let real = real.join(",");
+                let model = Driver::spawn().map(|mut d| d.ask("c11 growth 240")).unwrap_or_default();
+                rep.evaluations += 1;
+                rep.hist("table-growth", if real == model { "model = std HashMap" } else { "model ≠ std HashMap" });
+                if real != model {
+                    rep.mismatch(
+                        &format!("the constant-table model reallocates at insertions [{model}], std's HashMap at [{real}]"),
+                        json!({"history": "", "table-growth": {"model": model, "real": real}}),
+                    );
+                }
+            }
             // class representatives first
             let n_bnd = gen_boundary().len() as u64;
             run_batches(&["bnd"], n_bnd, n_bnd, t, &mut rep, |rep: &mut Report, idx: u64, how: &Ended| {
